@@ -279,14 +279,14 @@ func (s Script) Shape() (n int, stallBurst bool, classes []string) {
 func Gen(thorough bool) *rapid.Generator[Script] {
 	return rapid.Custom(func(t *rapid.T) Script {
 		var s Script
-		qs := []uint64{1, 2, 3, 4, 5, 6}
+		// small quantities, large ones, and the edges of the unsigned range (Quantity is a uint64)
+		qs := []uint64{1, 2, 3, 4, 5, 6, 1000, 1 << 40, 1<<63 + 1, ^uint64(0)}
 		if thorough {
-			qs = append(qs, 7, 10, 1000, 1<<40)
-		} else {
-			qs = append(qs, 1000, 1<<40)
+			qs = append(qs, 7, 10, 1<<31, 1<<32+1, 1<<63-1, 1<<63)
 		}
 		s.Q = rapid.SampledFrom(qs).Draw(t, "Q")
-		s.I = rapid.SampledFrom([]int64{1000, 1000000, 1000000000, 7, 1}).Draw(t, "I")
+		// nanoseconds to hours: virtual time costs nothing
+		s.I = rapid.SampledFrom([]int64{1000, 1000000, 1000000000, 7, 1, 1500000000, 60000000000, 3600000000000}).Draw(t, "I")
 		s.InCap = rapid.SampledFrom([]int{0, 1, 2, 3, 8}).Draw(t, "cap")
 		iv := s.I
 		gapPool := []int64{0, 0, 0, iv / 10, iv / 2, iv - 1, iv, iv + 1, 3 * iv}
